@@ -270,7 +270,7 @@ def gen(rng, ctx):
 
 def plan(tier, seed):
     n = 8 if tier == 'quick' else 16
-    return [{'cases': 40 if tier == 'quick' else 1300} for _ in range(n)]
+    return [{'cases': 40 if tier == 'quick' else 6000} for _ in range(n)]
 
 
 def requirements(tier):
